@@ -108,7 +108,8 @@ def _knill(iso, log_lines, log_cols):
 
     unitary = _extend_to_unitary(iso, log_lines, log_cols)
 
-    eigval, eigvec = np.linalg.eig(unitary)
+    schur_form, eigvec = scipy.linalg.schur(unitary, output="complex")
+    eigval = schur_form.diagonal()
     arg = np.angle(eigval)
 
     reg = QuantumRegister(log_lines)
@@ -377,7 +378,8 @@ def _cnot_count_estimate_knill(iso, log_lines, log_cols):
     """
     unitary = _extend_to_unitary(iso, log_lines, log_cols)
 
-    eigval, eigvec = np.linalg.eig(unitary)
+    schur_form, eigvec = scipy.linalg.schur(unitary, output="complex")
+    eigval = schur_form.diagonal()
     arg = np.angle(eigval)
 
     # pylint: disable=import-outside-toplevel
